@@ -9,7 +9,7 @@ from penman.tree import Tree
 from pv.gen import models, trees
 from pv.gen.base import pick
 from pv.harness import Hyp
-from pv.props.common import OPTS, fmt, short, tree_classes
+from pv.props.common import OPTS, fmt, noise_calls, short, tree_classes
 from pv.ref import graphm, interp
 from pv.ref.role import build_model, build_table, roles_for
 
@@ -61,6 +61,7 @@ def check_roundtrip(case):
     ok_roles, deconcepts = unambiguous_roles(table)
     reifiable = {r[0] for r in table['reifications']}
     m = build_model(spec)
+    noise_calls(m, node)
     g = layout.interpret(Tree(node), m)
     if case.get('strip'):
         g = Graph(g.triples, top=g.top)
